@@ -340,6 +340,7 @@ type sim struct {
 	howGot        map[string]string // how each service came to its current addresses (Allocate | AllocateFromPool | Assign | AddFamily)
 	blame         map[string]bool   // during a restart: victim -> whoever held its recorded address when the victim's handler ran had a record itself
 	thefts        map[string]bool   // during a restart: victim -> the service that took its recorded address had a record itself
+	fewer         map[string]bool   // during a restart: victim -> a service with a record of FEWER addresses than the victim's held / took its address (the start-up order handles services with more recorded addresses first: the listed ordering defect cannot explain that)
 }
 
 func (s *sim) setViol(v *vw.Violation) {
@@ -638,6 +639,9 @@ func (s *sim) afterService(name string, svc *v1.Service, pre vw.Holders, preIPs 
 				for o := range s.ever {
 					if o != name && containsAddr(ipsToAddrs(s.c.ips.IPs(o)), a) {
 						s.blame[name] = s.blame[name] || len(s.recR[o]) > 0
+						if n := len(s.recR[o]); n > 0 && n < len(s.recR[name]) {
+							s.fewer[name] = true
+						}
 					}
 				}
 			}
@@ -653,6 +657,9 @@ func (s *sim) afterService(name string, svc *v1.Service, pre vw.Holders, preIPs 
 					if a == b && !containsAddr(ipsToAddrs(s.c.ips.IPs(o)), a) && !containsAddr(preIPs, a) {
 						if had := len(s.recR[name]) > 0; had || !s.thefts[o] {
 							s.thefts[o] = had
+						}
+						if n := len(s.recR[name]); n > 0 && n < len(as) {
+							s.fewer[o] = true
 						}
 					}
 				}
@@ -1320,7 +1327,7 @@ func (s *sim) restart(op ctrlOp) {
 			s.touched[k] = true
 		}
 	}
-	s.recR, s.thefts, s.sinceRestart, s.blame = R, map[string]bool{}, map[string]bool{}, map[string]bool{}
+	s.recR, s.thefts, s.sinceRestart, s.blame, s.fewer = R, map[string]bool{}, map[string]bool{}, map[string]bool{}, map[string]bool{}
 	s.crash = ""
 	s.fail = append([]bool(nil), op.Fail...) // status writes failing during the first passes of the new instance
 	s.readFail = append([]bool(nil), op.ReadFail...)
@@ -1426,6 +1433,9 @@ func (s *sim) restartJudge() {
 						if len(R[o]) > 0 {
 							thiefHadRecord = true
 						}
+						if len(R[o]) > 0 && len(R[o]) < len(as) {
+							s.fewer[k] = true
+						}
 					}
 				}
 			}
@@ -1443,6 +1453,9 @@ func (s *sim) restartJudge() {
 		}
 		if thief != "" {
 			sig = fmt.Sprintf("restart-lost:thief-had-recorded-address=%v", thiefHadRecord)
+			if thiefHadRecord && s.fewer[k] {
+				sig = "restart-lost:thief-had-fewer-recorded-addresses"
+			}
 		}
 		v := vw.Violationf("restart-lost-recorded-address", "%s had %v recorded and still admissible at the crash, after the restart it holds %v (now held by %q; list order %v, early %v)", k, as, now, thief, op.Perm, op.Early).WithSig(sig)
 		if id := vw.KnownID("C06", v); id != "" {
